@@ -6,6 +6,7 @@ import MuduoVerif.Proofs.ConnNoDiscard
 import MuduoVerif.Proofs.Acceptor
 import MuduoVerif.Generated.Client
 import MuduoVerif.Proofs.SysSkelTie
+import MuduoVerif.Proofs.LoopSkelTie
 /-!
 # C11 — transient socket faults delay service but never corrupt, wedge or leak
 
@@ -435,5 +436,52 @@ theorem io_primitives_are_single_syscalls :
    SysSkel.skeleton_socketsConnect, SysSkel.skeleton_socketsClose, SysSkel.skeleton_socketsShutdownWrite,
    SysSkel.skeleton_socketShutdownWrite, SysSkel.skeleton_getSocketError, SysSkel.skeleton_socketsAccept,
    SysSkel.skeleton_socketAccept, SysSkel.accept_switch_is_acceptTable.1⟩
+
+/-- **acceptor_statement_order_tied** (T1, statement order of the listener).  Every function of /repo's current
+`Acceptor.cc` has the statement skeleton `Model/Acceptor.lean` assumes (`Model/LoopSkelDecl.lean`; re-extracted on every
+run by `vlib/gen/loopskel.py`, proved equal in `Proofs/LoopSkelTie.lean`), and of the EXTRACTED skeletons: (i)
+`Acceptor::listen` is loop-thread assertion, `listening_ = true`, `acceptSocket_.listen()`, `enableReading()` - the socket
+listens BEFORE the channel is subscribed, so a readable report means a pending connection; the constructor creates the
+socket, opens the spare descriptor, sets the reuse flags and binds before it installs the read callback, and neither
+subscribes the channel nor listens; `~Acceptor` is `disableAll` -> `remove` -> `::close(idleFd_)`; `handleRead` makes one
+`accept`, hands `(connfd, peerAddr)` to the callback when there is one and closes the descriptor otherwise, logs a
+failure and - exactly under `errno == EMFILE` - closes the spare descriptor, accepts into it, closes it and reopens
+`/dev/null`, in that order (`Gen.Acceptor.emfileSeq`, which `Acceptor.runIdle` interprets). -/
+theorem acceptor_statement_order_tied :
+    (Gen.LoopSkel.acceptorCtor = LoopSkel.Decl.acceptorCtor ∧
+     Gen.LoopSkel.acceptorDtor = LoopSkel.Decl.acceptorDtor ∧
+     Gen.LoopSkel.acceptorListen = LoopSkel.Decl.acceptorListen ∧
+     Gen.LoopSkel.acceptorHandleRead = LoopSkel.Decl.acceptorHandleRead) ∧
+    (LoopSkel.flat Gen.LoopSkel.acceptorListen =
+       [.call "loop_.assertInLoopThread" "", .store "listening_" "true", .call "acceptSocket_.listen" "",
+        .call "acceptChannel_.enableReading" ""] ∧
+     LoopSkel.before (.call "acceptSocket_.listen" "") (.call "acceptChannel_.enableReading" "")
+       (LoopSkel.flat Gen.LoopSkel.acceptorListen) = true) ∧
+    (LoopSkel.inOrder [.call "sockets::createNonblockingOrDie" "listenAddr.family()", .store "acceptSocket_" "<result>",
+                       .store "acceptChannel_" "Channel(loop, acceptSocket_.fd())", .store "listening_" "false",
+                       .sys "open" "\"/dev/null\", 0 | 524288", .store "idleFd_" "<result>", .assertion "idleFd_ >= 0",
+                       .call "acceptSocket_.setReuseAddr" "true", .call "acceptSocket_.setReusePort" "reuseport",
+                       .call "acceptSocket_.bindAddress" "listenAddr",
+                       .call "acceptChannel_.setReadCallback" "bind(&Acceptor::handleRead, this)"]
+       (LoopSkel.flat Gen.LoopSkel.acceptorCtor) = true ∧
+     (LoopSkel.flat Gen.LoopSkel.acceptorCtor).contains (.call "acceptChannel_.enableReading" "") = false ∧
+     (LoopSkel.flat Gen.LoopSkel.acceptorCtor).contains (.call "acceptSocket_.listen" "") = false) ∧
+    LoopSkel.flat Gen.LoopSkel.acceptorDtor =
+      [.call "acceptChannel_.disableAll" "", .call "acceptChannel_.remove" "", .sys "close" "idleFd_"] ∧
+    ((LoopSkel.flat Gen.LoopSkel.acceptorHandleRead).take 3 =
+       [.call "loop_.assertInLoopThread" "", .call "acceptSocket_.accept" "&peerAddr", .assign "connfd" "<result>"] ∧
+     LoopSkel.thenOf "connfd >= 0" Gen.LoopSkel.acceptorHandleRead =
+       [.ite "newConnectionCallback_" [.act (.call "newConnectionCallback_" "connfd, peerAddr")]
+          [.act (.call "sockets::close" "connfd")]] ∧
+     (LoopSkel.elseOf "connfd >= 0" Gen.LoopSkel.acceptorHandleRead).head? = some (.act (.log .syserr)) ∧
+     LoopSkel.thenOf "errno == 24" (LoopSkel.elseOf "connfd >= 0" Gen.LoopSkel.acceptorHandleRead) =
+       [.act (.sys "close" "idleFd_"), .act (.sys "accept" "acceptSocket_.fd(), NULL, NULL"),
+        .act (.store "idleFd_" "<result>"), .act (.sys "close" "idleFd_"),
+        .act (.sys "open" "\"/dev/null\", 0 | 524288"), .act (.store "idleFd_" "<result>")] ∧
+     LoopSkel.elseOf "errno == 24" (LoopSkel.elseOf "connfd >= 0" Gen.LoopSkel.acceptorHandleRead) = [] ∧
+     LoopSkel.flat (LoopSkel.dropIte "errno == 24" (LoopSkel.elseOf "connfd >= 0" Gen.LoopSkel.acceptorHandleRead)) =
+       [.log .syserr]) :=
+  ⟨LoopSkel.skeletons_agree_acceptor, LoopSkel.acceptorListen_order, LoopSkel.acceptorCtor_order,
+   LoopSkel.acceptorDtor_order, LoopSkel.acceptorHandleRead_structure⟩
 
 end MuduoVerif.C11
